@@ -14,7 +14,7 @@
                                FortranBase.children / find_child, _find_in_list -> [find_child], [find_first]
                                FortranModule.get_used_entities on an ExternalModule -> [used_lookup]
      ford/fortran_project.py   find_used_modules (chain(modules, external_modules)) -> [find_used_module]
-                               Project.find (LINK_TYPES chain)   -> [project_find]
+                               Project.find (own collections first, then the external ones) -> [project_find], [FIND_ORDER]
    Executable definitions only; the Spec is Out/ExternalSpec.v, proofs are in Out/ExternalProofs.v.
 
    Bounds of the model (stated, not hidden): 7-bit names; JSON numbers are naturals; JSON objects have
@@ -724,6 +724,21 @@ Fixpoint find_colls (B : blocal) (tops : list xval) (n : str) (cs : list coll) :
     bind (find_first n (coll_items B tops c)) (fun h =>
       match h with Some _ => Ok h | None => find_colls B tops n r end)
   end.
+(* the collections that hold entities of external projects (attribute names starting with "ext") *)
+Definition is_ext_coll (c : coll) : bool :=
+  match c with CExtModules | CExtTypes | CExtProcedures | CExtInterfaces => true | _ => false end.
+(* list(dict.fromkeys(LINK_TYPES.values())) *)
+Fixpoint dedup_colls (l : list coll) : list coll :=
+  match l with
+  | [] => []
+  | c :: r => c :: filter (fun x => negb (coll_eqb x c)) (dedup_colls r)
+  end.
+(* the search order of an unqualified look-up: B's own collections (in LINK_TYPES order), then the
+   ones of external projects *)
+Definition FIND_ORDER : list coll :=
+  let names := dedup_colls (map snd LINK_TYPES) in
+  filter (fun c => negb (is_ext_coll c)) names ++ filter is_ext_coll names.
+
 Definition project_find (B : blocal) (tops : list xval) (n : str) (entity : option str)
            (child : option (str * option str)) : res (option hit) :=
   bind (match entity with
@@ -731,7 +746,7 @@ Definition project_find (B : blocal) (tops : list xval) (n : str) (entity : opti
                     | Some c => find_colls B tops n [c]
                     | None => Err ValueError
                     end
-        | None => find_colls B tops n (map snd LINK_TYPES)
+        | None => find_colls B tops n FIND_ORDER
         end)
   (fun h =>
     match child, h with
